@@ -278,7 +278,10 @@ class World:
             inbound = sum(1 for s, t in self.transit if t == tgt)
             room = self.devs[tgt]["cap"] - self.count(tgt) - inbound
         bd = self.rig.machine.ball_devices[d]
+        own = sum(1 for s_, t_ in self.transit if t_ == tgt and s_ == d)
         self.log.append(["C", d, self.snap(), {"target": tgt, "room": room, "has_ball": self.count(d) > 0,
+                                                "transit": [list(x) for x in self.transit],
+                                                "room_without_own": None if room is None else room + own,
                                                 "state": bd.state, "t": self.now_us()}])
         if self.count(d) == 0:
             return
@@ -718,6 +721,7 @@ def oracle_c04(case, out):
             fails.append({"sig": sig, "what": what})
 
     started = False
+    total = case["topo"]["balls"] + case["topo"].get("loose", 0)
     for it in out["log"]:
         k = it[0]
         if k == "T":
@@ -743,7 +747,15 @@ def oracle_c04(case, out):
                     add("count-above-capacity", "%s: balls=%d counted=%d capacity=%d %s" %
                         (d, balls, counted, v["cap"], where))
             if snap["playfield"][0] < 0:
-                add("playfield-balls-negative", "playfield.balls == %d %s" % (snap["playfield"][0], where))
+                unknown = total - snap["known"]
+                if snap["playfield"][0] == -1 and (snap["playfield"][2] > 0 or unknown > 0):
+                    # a capture from the playfield is booked before the eject confirmation (or the new-ball
+                    # detection) that the very same capture triggers
+                    add("playfield-balls-negative-transient",
+                        "playfield.balls == -1 %s (a ball was captured before the pending eject to the playfield "
+                        "was confirmed / before it was known to exist)" % where)
+                else:
+                    add("playfield-balls-negative", "playfield.balls == %d %s" % (snap["playfield"][0], where))
         if k == "T" and it[2]:
             snap, truth = it[1], it[3]
             for d in devs:
@@ -763,8 +775,26 @@ def oracle_c04(case, out):
         if k == "C":
             info = it[3]
             if info["room"] is not None and info["room"] <= 0:
-                add("pulse-towards-full-device", "coil of %s pulsed while its target %s has no room" %
-                    (it[1], info["target"]))
+                t = info["target"]
+                believed = devs[t]["cap"] - snap[t][0] - snap[t][4]
+                own = any(x == [it[1], t] for x in info.get("transit", []))
+                if believed > 0 and own and info["room_without_own"] > 0:
+                    # MPF has given up on an earlier ball of this very eject (took a foreign ball for the returned one,
+                    # or booked it as lost after ball_missing_timeout) which is physically still on its way
+                    add("pulse-while-own-late-ball-in-transit",
+                        "coil of %s pulsed towards %s although a ball it ejected earlier is still on its way there "
+                        "and fills the last free place (MPF believes it returned or is lost)" % (it[1], t))
+                elif believed > 0 and snap[t][3] not in ("ball_left", "failed_confirm") and \
+                        info["room"] + sum(1 for x in info.get("transit", []) if x == [t, t]) > 0:
+                    # the target's own ejected ball is falling back although its eject has already been confirmed
+                    # (by the activity of another ball); MPF counts the target as empty
+                    add("pulse-while-confirmed-ball-falls-back",
+                        "coil of %s pulsed towards %s while the ball %s ejected is falling back into it; its eject "
+                        "had been confirmed by another ball's activity, so MPF counts %s as empty" % (it[1], t, t, t))
+                else:
+                    add("pulse-towards-full-device", "coil of %s pulsed while its target %s has no room "
+                        "(MPF's own numbers: capacity %d, counted %d, incoming %d)" %
+                        (it[1], t, devs[t]["cap"], snap[t][0], snap[t][4]))
             if info["state"] != "ejecting":
                 add("pulse-outside-eject", "coil of %s pulsed in state %s" % (it[1], info["state"]))
     return fails
